@@ -140,12 +140,42 @@ def canon_typed(tp):
 
 # ----------------------------------------------------------------------------- Rust float Display (oracle C only)
 
+def _shortest_half_up(a):
+    """shortest decimal text that reads back as the float `a` (>= 0), as Python's repr, except that when the exact
+    value lies exactly half way between two such texts the one of larger magnitude is taken (Rust's Display does
+    that; Python's repr takes the even digit).  Both read back as the same float."""
+    import decimal
+    r = repr(a)
+    if a == 0 or "inf" in r or "nan" in r:
+        return r
+    mant, _, e = r.partition("e")
+    nd = len(mant.replace(".", "").lstrip("0")) or 1
+    d = decimal.Decimal(a)
+    with decimal.localcontext() as c:
+        c.prec = nd
+        c.rounding = decimal.ROUND_HALF_UP
+        q = +d
+    if float(q) != a or q == decimal.Decimal(r):
+        return r
+    sgn, digs, ex = q.as_tuple()
+    digits = "".join(map(str, digs)).rstrip("0") or "0"
+    ex += len(digs) - len(digits)
+    # write as repr would: d.ddde+XX when repr used an exponent, positional otherwise
+    if e:
+        return digits[0] + ("." + digits[1:] if len(digits) > 1 else "") + "e%+03d" % (ex + len(digits) - 1)
+    if ex >= 0:
+        return digits + "0" * ex + ".0"
+    if -ex >= len(digits):
+        return "0." + "0" * (-ex - len(digits)) + digits
+    return digits[:ex] + "." + digits[ex:]
+
+
 def rust_float_display(x):
     if x != x:
         return "NaN"
     if x in (float("inf"), float("-inf")):
         return "inf" if x > 0 else "-inf"
-    r = repr(abs(x))
+    r = _shortest_half_up(abs(x))
     sign = "-" if math.copysign(1.0, x) < 0 else ""
     if "e" in r:
         mant, e = r.split("e")
